@@ -202,6 +202,9 @@ func runC09(o Opts) error {
 	if gos1 > gos0 {
 		s.Fail(map[string]any{"op": "resources", "fault": "goroutines", "before": gos0, "after": gos1}, fmt.Sprintf("the process holds %d more goroutines after %d calls than before", gos1-gos0, calls))
 	}
+	if s.ReplayWants("listen-shutdown") {
+		listenStopChild(s, "hang", "leak")
+	}
 	// LAST (a lock that is never released would block every later fixed-port call of this process): a TCP connect that
 	// is refused on a fixed bind port, then an ordinary call on the same port - it must be served, not wait forever
 	{
